@@ -17,12 +17,9 @@ def json_object(context: SerializationContext, value: Any, objects=[]):
 
     if isinstance(value, Config):
         value.__xpm__.__get_objects__(objects, context)
-    elif isinstance(value, list):
-        for el in value:
-            ConfigInformation.__collect_objects__(el, objects, context)
-    elif isinstance(value, dict):
-        for el in value.values():
-            ConfigInformation.__collect_objects__(el, objects, context)
+    elif isinstance(value, (list, dict)):
+        # (the position of each element is part of the path of its data files)
+        ConfigInformation.__collect_objects__(value, objects, context)
     else:
         raise NotImplementedError("Cannot serialize objects of type %s", type(value))
 
